@@ -16,6 +16,7 @@ OBVIOUS_REDIRECTS_RE = re.compile(
     % r"(?:redirect(?:_to)?|target|redir|next|link|orig|goto|url|[luq])",
     re.I,
 )
+YOUTUBE_REDIRECT_RE = re.compile(r"youtube\.com(?::\d+)?/redirect\?", re.I)
 REDIRECTION_DOMAINS_RE = re.compile(
     r"(?:\.ampproject\.org(?::\d+)?/[cv]/(?:s/)?|bc\.marfeelcache\.com(?::\d+)?/amp/|bc\.marfeel\.com(?::\d+)?/)",
     re.I,
@@ -93,7 +94,7 @@ def infer_redirection_once(url):
                     target = None
 
             # Idiotic youtube redirections
-            elif "youtube.com/redirect?" in url:
+            elif YOUTUBE_REDIRECT_RE.search(url):
                 target = "https://" + potential_target
 
     # NOTE: a target is a part of the given url, so it has to be shorter. Else
